@@ -108,6 +108,16 @@ def main(tier):
         except Exception:
             pass
     texts += special_docs() * 3
+    import c13
+    nrej = 0
+    for m in docs:
+        if m["valid"] and nrej < (400 if thorough else 60):
+            for nm, rd in c13.reject_variants(m["doc"]):
+                try:
+                    texts.append(("path_fault_" + nm, apidoc.render(rd)[0]))
+                    nrej += 1
+                except Exception:
+                    pass
     import c01
     bp = c01.block_pairs(False, random.Random(sd))
     texts += [("block_set", t) for nm, t in (bp if thorough else bp[sd % 5::5])]
